@@ -64,13 +64,15 @@ LEVEL_NOTE = ("Partial. What the proofs do NOT cover: no Lean model of the whole
               "a deeper XPath evaluation is 'undefined' in the specification (the generator stays far below; the check fails on any "
               "spec-undefined reply). "
               "Compared subset (generator coverage bounds the assurance): template rules with match/name/mode/priority, key() and id-free "
-              "patterns, apply-templates, call-template, for-each, sort, value-of, copy, copy-of, element and attribute (name AVTs, "
+              "patterns, every pattern kind of XSLT 5.5 with its default priority computed by Spec.lean (processing-instruction('t') and QName 0, "
+              "p:* -0.25, other node tests -0.5, the rest 0.5; rule sets differing in default priority only, on every node kind), apply-templates, call-template, for-each, sort, value-of, copy, copy-of, element and attribute (name AVTs, "
               "namespace= AVTs, namespace=\"\"), text, comment, processing-instruction, if, choose, variable, param, with-param, literal result "
               "elements with AVTs, global variables/params, attribute sets (merged by import precedence), keys (several declarations of one "
               "name, also in imported modules), xsl:number (value / level / count / from, multi-token formats), strip-space with xml:space "
               "(XSLT 3.4), xsl:namespace-alias (single module), import trees + include + apply-imports with named templates / globals / keys "
               "in imported modules, re-execution of the same invocation; documents with prefixed elements / attributes (two prefixes for one "
-              "URI), a default namespace, xml:space, comments, PIs, whitespace-only text; XPath: 10 axes, node tests, predicates, 31 "
+              "URI; the same prefix re-bound to other URIs at different depths and copied by xsl:copy / copy-of into result elements that "
+              "already bind it), a default namespace, xml:space, comments, PIs, whitespace-only text; XPath: 10 axes, node tests, predicates, 31 "
               "functions, arithmetic on exact dyadic rationals (div by powers of two only — other quotients and their number->string "
               "rounding are NOT generated, see C18). NOT compared: namespace nodes / xmlns declarations of the result (only expanded names "
               "are), hence exclude-result-prefixes; xsl:output and serialisation (C04/C08); xsl:message, document(), extension elements, "
@@ -574,6 +576,39 @@ CORPUS = [
                     {"pats": [("step", ("ctx",), "child", ("name", "r"), [])], "name": None, "mode": None, "prio": None,
                      "body": [{"k": "variable", "name": "gs", "select": None, "body": [T("rtf")]},
                               {"k": "copy", "body": [{"k": "usesets", "names": ["sc"]}, {"k": "valueof", "e": ("var", "gs")}]}]}]}, DOC0),
+    # a prefix re-bound at different depths of the source (p = urn:p on r, urn:o on a, urn:p again on b), copied by xsl:copy-of
+    # and by xsl:copy into result elements that already bind p to either URI: every copy keeps its expanded names
+    ({"globals": [], "templates": [
+        ROOT_T([LRE("out", [{"k": "copyof", "e": ("step", ("ctx",), "descendant", ("name", "b"), [])}]),
+                LRE("p:item", [{"k": "copyof", "e": ("step", ("ctx",), "descendant", ("name", "b"), [])},
+                               {"k": "apply", "select": ("step", ("ctx",), "descendant", "star", []), "mode": "cp", "sorts": [], "params": []}]),
+                {"k": "element", "name": [("l", "p:el")], "ns": [("l", "urn:o")],
+                 "body": [{"k": "apply", "select": ("step", ("ctx",), "descendant", ("name", "b"), []), "mode": "cp", "sorts": [], "params": []},
+                          {"k": "copyof", "e": ("step", ("ctx",), "descendant", "star", [])}]}]),
+        {"pats": [("step", ("ctx",), "child", "star", [])], "name": None, "mode": "cp", "prio": None,
+         "body": [{"k": "copy", "body": [{"k": "copyof", "e": ("step", ("ctx",), "attribute", "star", [])},
+                                         {"k": "apply", "select": None, "mode": "cp", "sorts": [], "params": []}]}]}]},
+     [("E", "r", [], [("E", "a", [("xmlns:p", "urn:o"), ("p:x", "0")],
+                       [("E", "b", [("xmlns:p", "urn:p")], [("E", "p:c", [("p:x", "1")], [("E", "q:d", [], [])])]),
+                        ("E", "p:e", [("xmlns", "urn:d")], [("E", "f", [("xmlns", "")], [])])])])]),
+    # default priorities (XSLT 5.5): the rule naming the PI target (0) beats the later processing-instruction() and node()
+    # rules (-0.5); a:0 beats the later * (-0.5); @x beats @*; text()[true()] (0.5) beats text(); comment() = node(): last wins
+    ({"globals": [], "templates": [
+        ROOT_T([{"k": "apply", "select": ("bin", "|", ("step", ("ctx",), "descendant", "node", []),
+                                           ("step", ("step", ("ctx",), "descendant", "star", []), "attribute", "star", [])),
+                 "mode": None, "sorts": [], "params": []}])] + [
+        {"pats": [p], "name": None, "mode": None, "prio": None, "body": [T(s)]} for p, s in [
+            (("step", ("ctx",), "child", ("piname", "p1"), []), "PI-named;"),
+            (("step", ("ctx",), "child", "pi", []), "PI-any;"),
+            (("step", ("ctx",), "child", "text", [("fn", "true", [])]), "T-pred;"),
+            (("step", ("ctx",), "child", ("name", "a"), []), "E-a;"),
+            (("step", ("ctx",), "attribute", ("name", "x"), []), "A-x;"),
+            (("step", ("ctx",), "child", "comment", []), "C;"),
+            (("step", ("ctx",), "child", "text", []), "T;"),
+            (("step", ("ctx",), "child", "star", []), "E-star;"),
+            (("step", ("ctx",), "attribute", "star", []), "A-star;"),
+            (("step", ("ctx",), "child", "node", []), "N;")]]},
+     [("E", "r", [("y", "2")], [("P", "p1", "d"), ("E", "a", [("x", "1")], [("T", "t")]), ("C", "c1"), ("P", "pp", ""), ("E", "b", [], [])])]),
     # empty value-of / empty RTF copy-of do not close the start tag
     ({"globals": [], "templates": [ROOT_T([LRE("out", [{"k": "valueof", "e": ("lit", "")}, ATTR("y", [T("2")])])])]}, DOC0),
 ]
